@@ -2,6 +2,7 @@ CONSTANTS
   MaxRows = 5
   MaxDepth = 3
   InitRowsA = {2}
+  WithEmptyB = FALSE
 SPECIFICATION Spec
 ACTION_CONSTRAINT EmitSandwich
 CHECK_DEADLOCK FALSE
